@@ -86,7 +86,7 @@ def journal():
     g = V.cur().ghost
     j = g.get("c04")
     if j is None:
-        j = g["c04"] = dict(untypable=[], writes=[], accs=[], prov=[], reads=[], spaces={}, stale=[])
+        j = g["c04"] = dict(untypable=[], writes=[], accs=[], prov=[], reads=[], spaces={}, stale=[])  # noqa
     return j
 
 
@@ -415,6 +415,39 @@ class TT(Kind):
 
     def __bool__(self):
         raise OutOfSubset("truth value of an abstract tensor")
+
+
+class Stale(TT):
+    """A value that must not influence the result (state left over from an earlier call): every use is recorded."""
+
+    def __init__(self, msg):
+        TT.__init__(self, (), "T", "N", "M", why=[msg])
+        self.msg = msg
+
+    def touch(self, how):
+        note("stale", False, f"{how}: {self.msg}")
+
+    @property
+    def shape(self):
+        self.touch("shape read")
+        return ()
+
+    @property
+    def ndim(self):
+        self.touch("ndim read")
+        return 0
+
+    def _use(self):
+        self.touch("value read")
+        return self
+
+    def numel(self):
+        self.touch("numel read")
+        return 0
+
+    def __getitem__(self, key):
+        self.touch("indexed")
+        return self
 
 
 def scalar(lin="C", mk="free", zero=False):
